@@ -31,12 +31,18 @@ class _Ctl:
 
 
 class CrashFile:
+    """Unbuffered file whose every written byte is a crash tick.  Any write mode is supported
+    (w, a, x, r+, ...); reads, seeks and truncate() are passed through (truncate is a tick too)."""
+
     def __init__(self, ctl, path, mode, **kw):
         self.ctl = ctl
         self.text = "b" not in mode
         self.name = os.path.basename(path)
+        bmode = mode.replace("t", "")
+        if "b" not in bmode:
+            bmode += "b"
         ctl.tick(f"before-open:{self.name}")
-        self.fd = os.open(path, os.O_WRONLY | os.O_CREAT | os.O_TRUNC, 0o644)
+        self.f = builtins.open(path, bmode, buffering=0)
         ctl.tick(f"after-open:{self.name}")
 
     def write(self, data):
@@ -48,9 +54,9 @@ class CrashFile:
             room = ctl.crash_at - ctl.t
             if room < len(data):
                 if room > 0:
-                    os.write(self.fd, data[:room])
+                    self.f.write(data[:room])
                 os._exit(137)
-        os.write(self.fd, data)
+        self.f.write(data)
         ctl.t += len(data)
         if ctl.crash_at is None and data:
             what = f"byte:{self.name}"
@@ -60,13 +66,24 @@ class CrashFile:
                 ctl.log.append([what, len(data)])
         return len(data)
 
+    def truncate(self, size=None):
+        self.ctl.tick(f"before-truncate:{self.name}")
+        r = self.f.truncate(size) if size is not None else self.f.truncate()
+        self.ctl.tick(f"after-truncate:{self.name}")
+        return r
+
     def flush(self):
         pass
 
     def close(self):
+        if self.f.closed:
+            return
         self.ctl.tick(f"before-close:{self.name}")
-        os.close(self.fd)
+        self.f.close()
         self.ctl.tick(f"after-close:{self.name}")
+
+    def __getattr__(self, name):          # read / seek / tell / fileno ...
+        return getattr(self.f, name)
 
     def __enter__(self):
         return self
